@@ -17,7 +17,7 @@
    printer's spans = reference parser's tree, evaluated in Coq), and its lexer is compared token by
    token with the reference lexer. Completeness of the reference parser (it accepts every
    derivable token sequence) is not proved; acceptance of valid scripts is judged (C14). *)
-From NS Require Import Lexer Parser Grammar LexProofs ParserSound.
+From NS Require Import Lexer Parser Grammar LexProofs ParserSound LexSorted NestedParse Navigation.
 Open Scope Z_scope.
 
 Theorem C15_token_positions_exact : forall l : list Z, tiled [] l (fst (lex_text l)).
@@ -36,7 +36,22 @@ Proof. exact dest_bounds. Qed.
 Theorem C15_statement_range : forall ts s, DStmt ts s -> bounds ts (stmt_rng s).
 Proof. exact stmt_bounds. Qed.
 
+(* (4) tokens do not span lines and come in order: each starts at or after the end - its line, its
+       column plus its length - of the one before (no token rule of the grammar matches a line feed) *)
+Theorem C15_tokens_single_line : forall l : list Z, Forall (fun t => Forall (fun c => (c =? 10) = false) (tk_text t)) (fst (lex_text l)).
+Proof. exact lex_tokens_single_line. Qed.
+Theorem C15_tokens_in_order : forall l : list Z, ordered_from (0, 0) (fst (lex_text l)).
+Proof. exact lex_tokens_ordered. Qed.
+
+(* (5) in the tree of every text the reference parser accepts, the range of each node encloses the
+       ranges of the variable uses and callee names below it *)
+Theorem C15_ranges_nested : forall text p, parse_text text = Parsed p -> nested p = true.
+Proof. exact (fun text p H => proj1 (accepted_text_nested text p H)). Qed.
+
 Print Assumptions C15_token_positions_exact.
+Print Assumptions C15_tokens_single_line.
+Print Assumptions C15_tokens_in_order.
+Print Assumptions C15_ranges_nested.
 Print Assumptions C15_parser_sound.
 Print Assumptions C15_statement_range.
 
